@@ -90,9 +90,17 @@ def run_scenario(sc, timeout=1.0):
     scp.acse_timeout = scp.dimse_timeout = scp.network_timeout = timeout
     for uid in (VERIF_UID, CT, FIND, GET):
         scp.add_supported_context(uid, scu_role=True, scp_role=True)
-    if sc.get("reject"):
+    if sc.get("reject") == "limit":
+        scp.maximum_associations = 1            # one association is already open when the scenario's request arrives
+    elif sc.get("reject"):
         scp.require_called_aet = True
-    hs = [(evt.EVT_C_ECHO, on_echo), (evt.EVT_C_STORE, on_store), (evt.EVT_C_FIND, on_find), (evt.EVT_C_GET, on_get), (evt.EVT_REQUESTED, on_requested)]
+    def on_acse_recv(event):
+        # abort during release: react to the peer's A-RELEASE-RQ with abort() from a notification handler (non-blocking abort)
+        p = event.primitive
+        if sc.get("acc") == "notify_abort" and type(p).__name__ == "A_RELEASE" and p.result is None:
+            event.assoc.abort()
+
+    hs = [(evt.EVT_ACSE_RECV, on_acse_recv), (evt.EVT_C_ECHO, on_echo), (evt.EVT_C_STORE, on_store), (evt.EVT_C_FIND, on_find), (evt.EVT_C_GET, on_get), (evt.EVT_REQUESTED, on_requested)]
     rq_hs = [(evt.EVT_C_STORE, on_store)]
     raisers = []
     if sc.get("raises") is not None:
@@ -111,8 +119,12 @@ def run_scenario(sc, timeout=1.0):
     side_done = threading.Event()
     side_thread = None
     assoc = None
+    first = None
     try:
-        assoc = scu.associate("127.0.0.1", port, ae_title="WRONG" if sc.get("reject") else "ACCEPTOR",
+        if sc.get("reject") == "limit":
+            first = scu.associate("127.0.0.1", port, ae_title="ACCEPTOR")
+            acc_assocs.clear()
+        assoc = scu.associate("127.0.0.1", port, ae_title="WRONG" if sc.get("reject") == "aet" or sc.get("reject") is True else "ACCEPTOR",
                               ext_neg=[build_role(CT, scu_role=True, scp_role=True)], evt_handlers=rq_hs)
         side = sc.get("side")
         if side and assoc.is_established:
@@ -190,6 +202,11 @@ def run_scenario(sc, timeout=1.0):
                 "elapsed": round(t_end - t_start, 3), "in_time": not (alive(assoc) or alive(acc)), "rid": getattr(assoc, "_verif_uid", 0), "aid": getattr(acc, "_verif_uid", 0) if acc is not None else 0,
                 "raiser_calls": sum(r.n for r in raisers)}
     finally:
+        try:
+            if first is not None and first.is_established:
+                first.release()
+        except Exception:  # noqa: BLE001
+            pass
         try:
             server.shutdown()
         except Exception:  # noqa: BLE001
